@@ -543,5 +543,17 @@ def main(argv=None):
     return run_cases(pid, cases, tier, seed, t0, assume)
 
 
+def _guarded():
+    try:
+        return main()
+    except SystemExit:
+        raise
+    except BaseException as e:  # machinery failure is never a verdict about the property
+        import traceback
+        traceback.print_exc()
+        print(f'ENGINE-ERROR: {type(e).__name__}: {str(e)[:500]}')
+        return 2
+
+
 if __name__ == '__main__':
-    sys.exit(main())
+    sys.exit(_guarded())
